@@ -169,6 +169,7 @@ func runC18(c *vk.Ctx) {
 			}
 			ch.NextBlock(dt)
 			supBefore := ch.App.BankKeeper.GetSupplyWithOffset(ch.Ctx, "uosmo").Amount
+			vestBefore := ch.Bal(authtypes.NewModuleAddress(minttypes.DeveloperVestingModuleAcctName), "uosmo")
 			n := info.CurrentEpoch // the epoch that ends in the next block
 			res := ch.NextBlock(time.Second)
 			c.Eval(1)
@@ -218,6 +219,7 @@ func runC18(c *vk.Ctx) {
 				continue
 			}
 			reduced := false
+			provBefore, lastReductionBefore := new(big.Int).Set(provisions), lastReduction
 			if n == p.MintingRewardsDistributionStartEpoch {
 				lastReduction = n
 			}
@@ -228,6 +230,18 @@ func runC18(c *vk.Ctx) {
 				reduced = true
 			}
 			M := sdkmath.NewIntFromBigInt(new(big.Int).Quo(provisions, big.NewInt(1e18)))
+			if decTrunc(M, p.DistributionProportions.DeveloperRewards).GT(vestBefore) {
+				// the developer vesting account cannot pay this epoch's developer share: the mint hook fails as
+				// a whole and everything it did (reduction included) is discarded — containment is C17's
+				// clause; here the schedule simply does not advance and nothing may have been minted
+				provisions, lastReduction = provBefore, lastReductionBefore
+				if !minted.IsZero() || !supAfter.Equal(supBefore) || ch.App.MintKeeper.GetMinter(ctx).EpochProvisions.BigInt().Cmp(provisions) != 0 {
+					c.Violate("C18.failed_epoch_left_traces", sig(), "epoch %d: the developer share %s exceeds the vesting balance %s, yet %s was minted / reported supply %s -> %s / provisions %s", n, decTrunc(M, p.DistributionProportions.DeveloperRewards), vestBefore, minted, supBefore, supAfter, ch.App.MintKeeper.GetMinter(ctx).EpochProvisions)
+					return
+				}
+				c.Class("vesting-exhausted|recv%d", nRecv)
+				continue
+			}
 			if got := ch.App.MintKeeper.GetMinter(ctx).EpochProvisions; got.BigInt().Cmp(provisions) != 0 {
 				c.Violate("C18.reduction_schedule", map[string]any{"reduced_expected": reduced}, "after epoch %d the minter's provision is %s, the schedule (start %d, period %d, factor %s, last reduction %d) gives %s", n, got, p.MintingRewardsDistributionStartEpoch, p.ReductionPeriodInEpochs, p.ReductionFactor, lastReduction, sdkmath.LegacyNewDecFromBigIntWithPrec(provisions, 18))
 				return
